@@ -108,6 +108,14 @@ PROPS = {
         "probes": ["get_many_dup", "get_many_absent", "get_many_all_present"],
         "rule": "one evaluation = one simulated run issuing get_many_mut / get_many_key_value_mut with N = 0..4 requests including duplicates and absent keys, under plans colliding in position and tag bits, and (one third of the runs) an equality that matches several entries; oracle: request order, right entry per request (serial), pairwise distinct addresses, panic iff two requests resolve to one entry, sentinel writes land in the requested entries; non-trivial/distinct as for C01",
     },
+    "C18": {
+        "level": "exploration",
+        "quick": [("A", 6000)],
+        "thorough": [("A", 300000)],
+        "differential": "B",
+        "probes": ["match_tag_false_positive", "tombstone_created", "rehash_in_place", "small_table", "one_group_table", "multi_group_table"],
+        "rule": "one evaluation = one execution of a scenario under one scanner back-end; every scenario is generated and executed under the SSE2 16-byte scanner, then the identical recorded scenario is replayed under the portable 8-byte scanner and the transcripts of content-semantic observables (lengths and sorted contents after every step; return values are compared with the same reference model in both builds) must be identical; in both builds, after every step, every scanner primitive is compared with its byte-by-byte definition on aligned and unaligned windows of the reached control bytes for all tags present, their low-bit neighbours and 0x00/0x01/0x7e/0x7f; non-trivial/distinct as for C01",
+    },
 }
 
 DEFAULT_SEED = 20261002
@@ -129,7 +137,7 @@ NOT_APPLICABLE = {
     "C16": "Send/Sync markers, variance and borrow lifetimes are decided entirely by the type checker on generic obligations: there is no execution, schedule or fault for a deterministic simulator to drive or observe (DESIGN section 11)",
     "C17": "pure integer arithmetic whose stated quantifier is an exhaustive enumeration of capacities x sizes x alignments: no schedule, clock, fault or interleaving; seeded simulation would only be input generation under another name (DESIGN section 11)",
 }
-for _p in ["C18", "C19", "C20"]:
+for _p in ["C19", "C20"]:
     NOT_APPLICABLE.setdefault(_p, NA_TECH)
 
 _TB = "trusts rustc/std, the system allocator under SimAlloc, the reference model and oracles in hbsim; x86-64 only; sampling, not enumeration"
@@ -223,5 +231,11 @@ LEVEL_TEXT = {
         "design_ref": "DESIGN.md section 9 C07",
         "note": _TB,
         "technique": "deterministic simulation (fault-free configuration, plus the lying-constructor fault F14): pairs of sets under per-slot hash plans vs mathematical sets",
+    },
+    "C18": {
+        "text": "differential execution of identical recorded scenarios under the two available scanner back-ends (SSE2 16-byte, portable 8-byte selected through cfg(miri) for the hashbrown crate only) with transcript comparison, plus an in-run monitor comparing each scanner primitive and BitMask query with its byte-by-byte definition on groups that simulated histories reach (with the documented match_tag false-positive allowance for the portable scanner). Not claimed: all 2^128 groups or all byte pairs - that would be exhaustive enumeration of a pure function",
+        "design_ref": "DESIGN.md section 9 C18",
+        "note": _TB + "; neon/lsx back-ends and 32-bit/big-endian GroupWord are out of reach on this host",
+        "technique": "deterministic simulation across build configurations: same seeded scenarios under both group-scanner back-ends + primitive monitor",
     },
 }
